@@ -171,7 +171,8 @@ class delete_index:
 
 @contract('pydbml._classes.table:Table.__getitem__')
 class tbl_getitem:
-    properties = ('C09', 'C05', 'C06')
+    # C01: ReferenceBlueprint.build and IndexBlueprint.build resolve column names through this lookup
+    properties = ('C09', 'C05', 'C06', 'C01')
     params = {'self': 'Table', 'k': 'Union[int,str,None]'}
     pure = True
     ret = 'Column'
